@@ -1,5 +1,6 @@
 import Clover.Generated.Facts
 import Clover.Probe.Linear
+import Clover.Probe.Occ
 import Clover.Model.DB
 import Clover.Proofs.ScanRun
 import Clover.Props.C04
@@ -12,8 +13,12 @@ results of one sequential order consistent with real time (writers at their comm
 their begin); (b) regenerated facts — the handle has no mutable shared state besides the store
 (`closed` only through sync/atomic), there is no mutable package-level variable, and no builder
 method of queries or criteria writes through its receiver.
-Outside the theorem (named): the Go scheduler and memory model, badger's optimistic conflict
-detection under phantoms; the schedules explored by the race stream are evidence, not proof. -/
+(c) since the repair F43 the badger adapter enforces the same discipline itself (a writer lock taken in `Begin(true)`,
+released by `Commit` / `Rollback`; pinned by `source_decision_logic` below): before it, badger's optimistic conflict
+detection - on keys read, not on ranges scanned - let two bulk updates through an index that move documents into each
+other's selection both commit (write skew; `Probe/Occ` states the counterexample).
+Outside the theorem (named): the Go scheduler and memory model; the schedules explored by the race stream are
+evidence, not proof. -/
 namespace CV.Props.C07
 open CV CV.Facts
 
@@ -37,6 +42,31 @@ theorem rejected_commit_no_effect (op : Op) (σ : DBState) (φ : Faults)
     (h : (op.run likeFn fnFam σ φ).out.isErr = true) : (op.run likeFn fnFam σ φ).state = σ :=
   C04.failed_op_no_trace likeFn fnFam op σ φ h
 
+/-- **Why the writer lock of the badger adapter is needed (F43).**  Badger's own scheme - a read-write transaction is
+    rejected at commit iff a transaction committed since its begin wrote a key it has READ - gives, for transactions
+    whose reads and writes are determined by the keys they have read (no scans), exactly the sequential execution of
+    the committed transactions in commit order … -/
+theorem badger_validation_serializable_without_scans (s0 : Occ.Store) (evs : List Occ.Ev) (s : Occ.Sys)
+    (hfd : Occ.AllFootprintDetermined evs) (hr : Occ.run (Occ.init s0) evs = some s) :
+    s.store = (Occ.seq s0 s.hist).1 ∧ s.outs = (Occ.seq s0 s.hist).2 :=
+  Occ.occ_point_reads_serializable s0 evs s hfd hr
+
+/-- … and does NOT for transactions that scan a range, as clover's bulk writes through an index do: "move every entry of
+    block 1 to block 3" against "move every entry of block 3 to block 1" on entries 11, 22, 33 both pass validation
+    (each read only its own block and the first key after it), and the committed store is the one of neither sequential
+    order.  This is the run the real code exhibited before the repair (`findings/F43`). -/
+theorem badger_validation_alone_admits_write_skew (c a b : Occ.Sys)
+    (hc : Occ.run (Occ.init Occ.s0) Occ.concurrent = some c) (ha : Occ.run (Occ.init Occ.s0) Occ.seq12 = some a)
+    (hb : Occ.run (Occ.init Occ.s0) Occ.seq21 = some b) :
+    c.hist.map (·.1) = [1, 2] ∧ c.store ≠ a.store ∧ c.store ≠ b.store :=
+  let h := Occ.occ_write_skew_stores c a b hc ha hb
+  ⟨h.1, h.2.1, h.2.2.1⟩
+
+/-- the scan is what breaks the hypothesis of the positive theorem: a key appearing inside the scanned block (a phantom)
+    changes what the program does although every key it had read is unchanged -/
+theorem scans_are_not_determined_by_the_keys_read : ¬ Occ.FootprintDetermined (Occ.moveAll 1 3) :=
+  Occ.moveAll_not_footprint_determined
+
 /-- (facts) the handle holds the store and an atomic flag, nothing else -/
 theorem handle_has_no_shared_mutable_state : dbFields = ["store store.Store", "closed uint32"] := by decide
 
@@ -49,13 +79,36 @@ theorem no_mutable_globals : packageVars =
      "clover.ErrIndexExist", "clover.ErrIndexNotExist", "clover.errIdChanged", "clover.errNilDocument",
      "internal.ErrStopIteration", "internal.typesMap"] := by decide
 
-/-- (facts) the only methods writing through their receiver are cursor adapters, plan nodes and the
-    normalisation visitor — objects created per call; no method of `Query`, of the criteria types
+/-- (facts) the only methods writing through their receiver are cursor adapters, the badger transaction wrapper (its
+    writer-lock release, cleared when the transaction ends: F43), plan nodes and the normalisation visitor — objects created per call; no method of `Query`, of the criteria types
     or of `DB` does (queries and criteria are immutable values, copy-on-write builders) -/
 theorem builders_do_not_write_through_receiver : receiverWrites =
-    ["badger.badgerCursor.Seek: cursor.empty", "bbolt.boltCursor.Next: c.currItem", "bbolt.boltCursor.Seek: c.currItem",
+    ["badger.badgerCursor.Seek: cursor.empty", "badger.badgerTx.done: tx.release", "bbolt.boltCursor.Next: c.currItem", "bbolt.boltCursor.Seek: c.currItem",
      "bbolt.boltCursor.adjustSeek: c.currItem", "clover.CriteriaNormalizeVisitor.VisitUnaryCriteria: v.err",
      "clover.planNodeBase.SetNext: nd.next", "clover.sortNode.Callback: nd.docs", "clover.sortNode.Callback: nd.docs"] := by
   decide
 
 end CV.Props.C07
+
+-- SOURCE-TEXT-BEGIN (generated by tools/mk_source_theorems.py; do not edit by hand)
+namespace CV.Props.C07
+
+/-- (facts, regenerated from the source on every run) **The source text the model transcribes is the text of the
+    current source**: the bodies (comments and layout removed) of the 10 functions the model behind C07 was written from and
+    validated against.  Any edit of one of them breaks this theorem at build time; the check then searches with the
+    property's own oracles for a failing input, and reports `no-failing-input-found` if it finds none: the model then
+    has to be re-validated against the new text (and this block regenerated). -/
+theorem source_decision_logic : CV.Facts.logicC07 = [
+  "badger.badgerStore.Begin: { if update { store.writeMu.Lock() } if store.db.IsClosed() { if update { store.writeMu.Unlock() } return nil, badger.ErrDBClosed } tx := &badgerTx{Txn: store.db.NewTransaction(update)} if update { tx.release = store.writeMu.Unlock } return tx, nil }", 
+  "badger.badgerTx.Commit: { defer tx.done() return tx.Txn.Commit() }", 
+  "badger.badgerTx.Rollback: { tx.Txn.Discard() tx.done() return nil }", 
+  "badger.badgerTx.done: { if tx.release != nil { tx.release() tx.release = nil } }", 
+  "bbolt.boltStore.Begin: { tx, err := store.db.Begin(update) return &boltTx{Tx: tx}, err }", 
+  "bbolt.boltTx.Commit: { return tx.Tx.Commit() }", 
+  "bbolt.boltTx.Rollback: { return tx.Tx.Rollback() }", 
+  "clover..Open: { dataStore, err := bbolt.Open(dir) if err != nil { return nil, err } return OpenWithStore(dataStore) }", 
+  "clover..OpenWithStore: { return &DB{store: store}, nil }", 
+  "clover.DB.Close: { if atomic.CompareAndSwapUint32(&db.closed, 0, 1) { return db.store.Close() } return nil }"] := by rfl
+
+end CV.Props.C07
+-- SOURCE-TEXT-END
